@@ -12,7 +12,11 @@ Decided (static, from /repo's current source):
   R-MUSTPASS   in mjXReader::Parse every path from entry to an element parser (a member of mjXReader taking an
                XMLElement*) passes the test of schema.Check's result on the accepting side; the rejecting side
                leaves by throw without parsing; public element parsers are called from outside the class only by
-               the reasoned callers (URDF extension block).
+               the reasoned callers (URDF extension block).  Decided on the canonical view of Parse (cxx3.View): its
+               lambdas — also a generic one that drives a handler argument once per section name —, the helper
+               functions of the reader's TU and members called on `this` are walked inside Parse in execution order;
+               only the element parsers and the check itself stay calls.  An element-parser call that the walk cannot
+               reach (lambda stored in a std::function, passed to foreign code, ...) is ANALYSIS-ERROR, never a pass.
   R-CATCH      exception flow over all of src/xml/*.cc and src/user/*.cc (+ in-class/inline header bodies): the
                exception types that can reach each call/throw site of the XML API chain (xml_api.cc, xml.cc,
                xml_global.cc) are caught by an enclosing handler somewhere in the chain; nothing escapes an
@@ -641,9 +645,46 @@ def mustpass_rule(res, model):
     fn = model.fn("mjXReader", "Parse")[0]
     unit = cir.Unit(model.irs[READER_TU])
     rule = _MustPass(parsers)
-    ctx = cxx3.xexplore(rule, unit, fn.node)
+    # members that run the schema check themselves belong to the checking side, not to the parsers it protects
+    validators = {n for n in parsers for f in model.index.by_qual.get(("mjXReader", n), [])
+                  if any(rule._is_check(x) for x in cir.walk(f.node))}
+    parsers -= validators
+    rule.parsers = parsers
+
+    def is_event(x):
+        if not cir.is_call(x):
+            return False
+        if rule._is_check(x):
+            return True
+        info = cxx3.callee_info(x)
+        return bool(info and info[0] == "method" and info[1] in parsers and info[2] in (None, "mjXReader"))
+
+    # canonical view of Parse: its lambdas (also generic ones driven by a handler argument) and the helpers / private
+    # members of the reader's TU are analysed inside it, in execution order; the element parsers and the check stay
+    # calls (they are what the rule speaks about)
+    view = cxx3.View(fn.node, [f.node for f in model.fns_of_file(READER_TU)], READER_TU,
+                     exclude=set(parsers) | {rule.check_name, fn.name})
+    ctx = cxx3.xexplore(rule, unit, view.fn)
     if rule.seen_check == 0:
         raise AnalysisError("mjXReader::Parse no longer calls mjXSchema::Check (anchor moved)")
+    # fail closed: every element-parser call written in Parse (also inside its lambdas) must have been walked, and no
+    # call that was left opaque may lead to an element parser or to the check
+    seen = {(n, ln) for n, ln in rule.parser_calls}
+    for x in cir.walk(fn.node):
+        if is_event(x) and not rule._is_check(x):
+            info = cxx3.callee_info(x)
+            if (info[1], x.get("line")) not in seen:
+                raise AnalysisError(f"mjXReader::Parse: the call of element parser {info[1]}() at line {x.get('line')} sits in "
+                                    f"code the path analysis could not follow (a lambda or local class that is not "
+                                    f"called in a way the analysis understands) — cannot decide whether the schema check "
+                                    f"dominates it")
+    for call, h in view.residual_targets():
+        if h.get("n") in view.inliner.exclude:
+            continue
+        if view.reaches(call, is_event):
+            raise AnalysisError(f"mjXReader::Parse: {cir.callee(call) or h.get('n')}() at line {call.get('line')} leads to an "
+                                f"element parser or to the schema check but could not be analysed inside Parse")
+    res.extra["parse_view_inlined"] = view.inlined
     bad = {}
     for r in ctx.reports:
         bad.setdefault(r.get("construct"), r)
@@ -1112,7 +1153,8 @@ def run(res, tier):
         "against the clang record layout of the struct named in its offsetof, using as the written type the cast the "
         "reader applies for that row kind (derived from mjXReader::ReadAttrTableCore, not hard-coded), and every call "
         "site binds the table to an object of that struct with that table's row count. R-MUSTPASS: all-paths "
-        "exploration of mjXReader::Parse (throw ends a path). R-CATCH: interprocedural exception-type flow (throw "
+        "exploration of the canonical view of mjXReader::Parse (lambdas, TU helpers and members called on this "
+        "expanded in place; throw ends a path; every written element-parser call must have been walked). R-CATCH: interprocedural exception-type flow (throw "
         "sites, try/catch filtering, rethrow, exception_ptr, virtual dispatch through the class table) to the "
         "extern \"C\" boundary. R-ERRMSG: all-paths rule over the parse chain with null-correlated predicates.")
     res.not_decided = (
@@ -1137,6 +1179,12 @@ _RD = "src/xml/xml_native_reader.cc"
 _CATCH = ("  // catch known errors\n  catch (mjXError err) {\n    mjCopyError(error, err.message, nerror);\n"
           "    mj_deleteSpec(spec);\n    return nullptr;\n  }\n")
 
+# (the second handler came with the repair of the mjCError leak; a `try` without handlers does not parse, so the mutant
+# that removes the try block has to remove both)
+_CATCH2 = ("  // errors raised by the spec while elements are added (e.g. body tree depth limit)\n"
+           "  catch (mjCError err) {\n    mjCopyError(error, err.message, nerror);\n    mj_deleteSpec(spec);\n"
+           "    return nullptr;\n  }\n")
+
 MUTANTS = [
     # ---- must fire (group A: independent constructs, one scratch copy)
     {"id": "row-len-too-long", "group": "A", "expect": ("R-LAYOUT", "kCompilerAttrs[eulerseq]"),
@@ -1148,7 +1196,8 @@ MUTANTS = [
     {"id": "row-handle-kind", "group": "A", "expect": ("R-LAYOUT", "kCompilerAttrs[meshdir]"),
      "edits": [(READ_TABLE, '{"meshdir", mjXAttr::kString, 1,', '{"meshdir", mjXAttr::kDoubleVec, 1,')]},
     {"id": "try-removed", "group": "A", "expect": ("R-CATCH", ":mjXError"),
-     "edits": [(_XML, "  // parse with exceptions\n  try {\n", "  // parse with exceptions\n  {\n"), (_XML, _CATCH, "")]},
+     "edits": [(_XML, "  // parse with exceptions\n  try {\n", "  // parse with exceptions\n  {\n"), (_XML, _CATCH, ""),
+               (_XML, _CATCH2, "")]},
     {"id": "early-null-return", "group": "A", "expect": ("R-ERRMSG", "ParseXML:return-null"),
      "edits": [(_XML, "  const char* dir;\n  int ndir = 0;",
                 "  if (buffer_size == 7) {\n    mju_closeResource(resource);\n    return nullptr;\n  }\n"
@@ -1192,6 +1241,50 @@ MUTANTS = [
                 "// Main parser function\n"),
                (_XML, 'mjCopyError(error, "XML root element not found", nerror);',
                 'Fail(error, nerror, "XML root element not found");')]},
+]
+
+# ---- shapes of behaviour-preserving refactorings (controls, added to groups C / D) and the same shapes hiding a defect
+# (group A)
+_LOOP = ('  for (XMLElement* section = FirstChildElement(root, "%s"); section;\n'
+         '       section = NextSiblingElement(section, "%s")) {\n    %s\n  }\n')
+_EACH = ("  auto for_each_section = [root](const char* name, auto&& handler) {\n"
+         "    XMLElement* section = FirstChildElement(root, name);\n    while (section) {\n      handler(section);\n"
+         "      section = NextSiblingElement(section, name);\n    }\n  };\n")
+MUTANTS += [
+    {"id": "check-in-if-declaration", "group": "D", "expect": None,
+     "edits": [(_RD, "  XMLElement* bad = 0;\n  if ((bad = schema.Check(root, 0))) {",
+                "  if (XMLElement* bad = schema.Check(root, 0)) {")]},
+    {"id": "sections-through-generic-lambda", "group": "C", "expect": None,
+     "edits": [(_RD, _LOOP % ("compiler", "compiler", "Compiler(section, spec);"),
+                _EACH + '  for_each_section("compiler", [&](XMLElement* section) { Compiler(section, spec); });\n'),
+               (_RD, _LOOP % ("visual", "visual", "Visual(section);"),
+                '  for_each_section("visual", [&](XMLElement* section) { Visual(section); });\n'),
+               (_RD, _LOOP % ("keyframe", "keyframe", "Keyframe(section);"),
+                '  for_each_section("keyframe", [&](XMLElement* section) {\n    if (!section) {\n      return;\n    }\n'
+                '    Keyframe(section);\n  });\n')]},
+    {"id": "section-parser-through-named-lambda", "group": "C", "expect": None,
+     "edits": [(_RD, _LOOP % ("size", "size", "Size(section, spec);"),
+                "  auto parse_size = [&](XMLElement* elem) { Size(elem, spec); };\n"
+                + _LOOP % ("size", "size", "parse_size(section);"))]},
+    {"id": "section-through-template-helper", "group": "C", "expect": None,
+     "edits": [(_RD, "void mjXReader::Parse(XMLElement* root, const mjVFS* vfs) {",
+                "template <class F>\nstatic void ForEachSection(XMLElement* root, const char* name, F&& f) {\n"
+                "  XMLElement* section = FirstChildElement(root, name);\n  while (section) {\n    f(section);\n"
+                "    section = NextSiblingElement(section, name);\n  }\n}\n\n"
+                "void mjXReader::Parse(XMLElement* root, const mjVFS* vfs) {"),
+               (_RD, _LOOP % ("tendon", "tendon", "Tendon(section);"),
+                '  ForEachSection(root, "tendon", [&](XMLElement* section) { Tendon(section); });\n')]},
+    {"id": "parser-in-lambda-before-check", "group": "A", "expect": ("R-MUSTPASS", "mjXReader::Parse->Size"),
+     "edits": [(_RD, "  // validate\n  XMLElement* bad = 0;",
+                "  auto early = [&](XMLElement* elem) { Size(elem, spec); };\n  early(root);\n"
+                "  // validate\n  XMLElement* bad = 0;")]},
+    {"id": "section-lambda-before-check", "group": "A", "expect": ("R-MUSTPASS", "mjXReader::Parse->Statistic"),
+     "edits": [(_RD, "  // validate\n  XMLElement* bad = 0;",
+                "  auto each_early = [root](const char* name, auto&& handler) {\n"
+                "    for (XMLElement* e = FirstChildElement(root, name); e; e = NextSiblingElement(e, name)) {\n"
+                "      handler(e);\n    }\n  };\n"
+                '  each_early("statistic", [&](XMLElement* e) { Statistic(e); });\n'
+                "  // validate\n  XMLElement* bad = 0;")]},
 ]
 
 # the proposed repair of the reported leak: with it, exactly the two R-CATCH reports disappear
